@@ -20,7 +20,9 @@ func init() {
 			"(resv) the reservation filter of every assignFromExistingBlock / block search derives from getReservedIPs(), is passed unchanged to the block, and the block allocates an ordinal only under !reservations.MatchesIP(OrdinalToIP(ord)); " +
 			"(strict) assignFromExistingBlock is called with affCheck = config.StrictAffinity or under StrictAffinity==false, passes it unchanged, and the block allocates with affinityCheck only under Affinity!=nil && affinityMatches(cfg, block); " +
 			"(cap) in every caller of findOrClaimBlock (autoAssign, ensureBlock) the call is reached only with owned < cap, with no cap (cap <= 0), or after allowNewClaim=false was stored into the state the call is made on; the owned count starts at len(affine blocks) and, where the call repeats, grows on every newly claimed block; allowNewClaim is never re-enabled; in findOrClaimBlock new blocks are looked for only under allowNewClaim, otherwise an error is returned; " +
-			"(cidr) every returned IPNet is the parsed block CIDR with only the IP replaced by the allocated ordinal's address.",
+			"(cidr) every returned IPNet is the parsed block CIDR with only the IP replaced by the allocated ordinal's address; " +
+			"(filterro) every implementation of addrFilter is read-only in all three interface methods: no store, append, copy, sort or in-package callee reached with the receiver's storage writes into the (request-wide shared) reservation list; " +
+			"(capset) the affine-block list whose length is compared with the cap is filterBlocksByPools(getAffineBlocks(...)), and no branch of getAffineBlocks depends on the value (state) of a listed affinity, so pending / pendingDeletion affinities are counted.",
 		NotDecided: "Selector evaluation and CIDR containment arithmetic; that explicitly requested pools bypass node/namespace selectors (documented backwards-compatibility exception, reported in the evidence); computation of the effective per-host cap from request and global config; races between concurrent claimers (C22); AssignIP (explicit address) is out of the property's scope.",
 		Assumptions: []string{
 			"go/types + go/ssa (x/tools v0.50.0) model of the current source, CGO_ENABLED=0 build",
@@ -64,6 +66,21 @@ func init() {
 				Old: "if config.MaxBlocksPerHost > 0 && len(affBlocks) >= config.MaxBlocksPerHost {", New: "if config.MaxBlocksPerHost > 0 && len(affBlocks) > config.MaxBlocksPerHost {", Expect: "C20.cap/ipamClient.ensureBlock/limit"},
 			{Name: "findOrClaimBlock claims despite allowNewClaim=false", File: "libcalico-go/lib/ipam/ipam.go",
 				Old: "\tif !s.allowNewClaim {\n\t\treturn nil, false, ErrBlockLimit\n\t}\n", New: "\tif !s.allowNewClaim {\n\t\tlogCtx.Info(\"block limit\")\n\t}\n", Expect: "C20.cap/findOrClaimBlock"},
+			{Name: "filter builds its scratch list in the shared reservation list", File: "libcalico-go/lib/ipam/addr_filter.go",
+				Old: "\tvar cidrsOverlappingCandidate cidrSliceFilter\n", New: "\tcidrsOverlappingCandidate := c[:0]\n", Expect: "C20.filterro/cidrSliceFilter.MatchesWholeCIDR"},
+			{Name: "filter caches its last hit in slot 0 of the shared list", File: "libcalico-go/lib/ipam/addr_filter.go",
+				Old: "\t\tif cidr.IsNetOverlap(ip.IPNet) {\n\t\t\treturn true\n", New: "\t\tif cidr.IsNetOverlap(ip.IPNet) {\n\t\t\tc[0] = cidr\n\t\t\treturn true\n", Expect: "C20.filterro/cidrSliceFilter.MatchesSome"},
+			{Name: "filter hands the shared list to a helper that recycles it as scratch space", File: "libcalico-go/lib/ipam/addr_filter.go",
+				Old: "func (c cidrSliceFilter) MatchesWholeCIDR(candidateCIDR *net.IPNet) bool {\n\tvar cidrsOverlappingCandidate cidrSliceFilter\n",
+				New: "func recycleScratch(s cidrSliceFilter) cidrSliceFilter {\n\tfor i := range s {\n\t\ts[i] = net.IPNet{}\n\t}\n\treturn nil\n}\n\nfunc (c cidrSliceFilter) MatchesWholeCIDR(candidateCIDR *net.IPNet) bool {\n\tcidrsOverlappingCandidate := recycleScratch(c)\n", Expect: "C20.filterro/cidrSliceFilter.MatchesWholeCIDR"},
+			{Name: "affinities being released are not listed as the host's blocks", File: "libcalico-go/lib/ipam/ipam_block_reader_writer.go",
+				Old: "\t\tk := o.Key.(model.BlockAffinityKey)\n\t\tblocks = append(blocks, model.IPNetFromPrefix(k.CIDR))\n",
+				New: "\t\tif aff, ok := o.Value.(*model.BlockAffinity); ok && aff.State == model.StatePendingDeletion {\n\t\t\tcontinue\n\t\t}\n\t\tk := o.Key.(model.BlockAffinityKey)\n\t\tblocks = append(blocks, model.IPNetFromPrefix(k.CIDR))\n", Expect: "C20.capset/getAffineBlocks/no-value-filter"},
+			{Name: "only confirmed affinities are listed as the host's blocks", File: "libcalico-go/lib/ipam/ipam_block_reader_writer.go",
+				Old: "\t\tk := o.Key.(model.BlockAffinityKey)\n\t\tblocks = append(blocks, model.IPNetFromPrefix(k.CIDR))\n",
+				New: "\t\tk := o.Key.(model.BlockAffinityKey)\n\t\tswitch o.Value.(*model.BlockAffinity).State {\n\t\tcase model.StateConfirmed:\n\t\t\tblocks = append(blocks, model.IPNetFromPrefix(k.CIDR))\n\t\t}\n", Expect: "C20.capset/getAffineBlocks/no-value-filter"},
+			{Name: "only the first affine block is handed on for counting", File: "libcalico-go/lib/ipam/ipam.go",
+				Old: "filterBlocksByPools(allAffBlocks, poolsAllowedByUse)", New: "filterBlocksByPools(append([]net.IPNet(nil), allAffBlocks[:min(1, len(allAffBlocks))]...), poolsAllowedByUse)", Expect: "C20.capset/prepareAffinityBlocksForHost/source"},
 			{Name: "returned address carries the pool's mask instead of the block's", File: "libcalico-go/lib/ipam/ipam_block.go",
 				Old: "\t\tipNet := *mask\n\t\tipNet.IP = addr.IP\n", New: "\t\tipNet := cnet.IPNet{IPNet: net.IPNet{IP: addr.IP, Mask: addr.IP.DefaultMask()}}\n\t\t_ = mask\n", Expect: "C20.cidr/allocationBlock.autoAssign"},
 		},
@@ -256,6 +273,8 @@ func runC20(c *Ctx) {
 	c.Rule("C20.resv", "E-FLOW/E-GUARD", "reservation filters derive from getReservedIPs() and are passed unchanged; the block allocates only ordinals with !MatchesIP", 8)
 	c.Rule("C20.strict", "E-FLOW/E-GUARD", "affCheck = config.StrictAffinity on the affine path, fallback only under !StrictAffinity; block allocates under affinityCheck only if Affinity!=nil && affinityMatches", 4)
 	c.Rule("C20.cap", "E-GUARD/E-FLOW", "allowNewClaim=false stored before findOrClaimBlock whenever numBlocksOwned >= maxNumBlocks; owned count = len(affine blocks)+newly claimed; new block search only under allowNewClaim", 7)
+	c.Rule("C20.filterro", "E-OWN", "addrFilter implementations are read-only: no interface method of a filter (nor a function it hands its storage to) writes into, appends to or sorts the receiver's backing storage, which is shared by every check of a request", 6)
+	c.Rule("C20.capset", "E-FLOW", "the blocks counted against MaxBlocksPerHost are every block affinity listed for the host: the affine-block list comes from getAffineBlocks, and getAffineBlocks keeps or drops no listed affinity depending on its value (state)", 2)
 	c.Rule("C20.cidr", "E-FLOW", "every IPNet returned by allocationBlock.autoAssign is the parsed block CIDR with IP := OrdinalToIP(allocated ordinal)", 1)
 
 	c20Use(m)
@@ -263,6 +282,8 @@ func runC20(c *Ctx) {
 	c20Strict(m)
 	c20Cap(m)
 	c20CIDR(m)
+	c20FilterRO(m)
+	c20CapSet(m)
 }
 
 // ----------------------------------------------------------------------- use --
@@ -1262,4 +1283,376 @@ func c20CIDR(m *c20Model) {
 	if n == 0 {
 		c.Lost("allocationBlock.autoAssign: no returned address")
 	}
+}
+
+// ------------------------------------------------------------------ filterro --
+//
+// The reservation filter is loaded once per request (getReservedIPs) and the one
+// value is consulted by every block search and every block-level assignment of
+// that request.  Evaluating it must therefore leave it unchanged.  For every
+// type implementing addrFilter and every interface method, the values aliasing
+// the receiver's storage are tracked (re-slices, phis, conversions, element /
+// field addresses, reference-typed fields, locals and captured variables holding
+// them, append results on an aliasing base) and the method must not
+//   - store through an aliasing address, update/delete/clear an aliasing map,
+//   - append to / copy into an aliasing slice (`c[:0]` re-uses c's array),
+//   - hand an aliasing value to a sorting/compacting library function,
+//   - hand it to an in-package function that does any of the above (recursive).
+// Aliasing is shallow: copies of elements (struct values) are not tracked.
+
+type c20Alias struct {
+	tainted map[ssa.Value]bool
+	holds   map[*ssa.Alloc]bool
+}
+
+func c20IsRef(t types.Type) bool {
+	switch t.Underlying().(type) {
+	case *types.Slice, *types.Map, *types.Pointer:
+		return true
+	}
+	return false
+}
+
+// c20AliasSet computes the values of fn (and closures) aliasing parameter pi.
+func c20AliasSet(fn *ssa.Function, pi int) *c20Alias {
+	a := &c20Alias{tainted: map[ssa.Value]bool{fn.Params[pi]: true}, holds: map[*ssa.Alloc]bool{}}
+	for changed := true; changed; {
+		changed = false
+		mark := func(v ssa.Value) {
+			if !a.tainted[v] {
+				a.tainted[v] = true
+				changed = true
+			}
+		}
+		allInstrs(fn, true, func(_ *ssa.Function, in ssa.Instruction) {
+			switch x := in.(type) {
+			case *ssa.Slice:
+				if a.tainted[x.X] {
+					mark(x)
+				}
+			case *ssa.Phi:
+				for _, e := range x.Edges {
+					if a.tainted[e] {
+						mark(x)
+					}
+				}
+			case *ssa.ChangeType:
+				if a.tainted[x.X] {
+					mark(x)
+				}
+			case *ssa.Convert:
+				if a.tainted[x.X] && c20IsRef(x.Type()) {
+					mark(x)
+				}
+			case *ssa.FieldAddr:
+				if a.tainted[x.X] {
+					mark(x)
+				}
+			case *ssa.IndexAddr:
+				if a.tainted[x.X] {
+					mark(x)
+				}
+			case *ssa.Field:
+				if a.tainted[x.X] && c20IsRef(x.Type()) {
+					mark(x)
+				}
+			case *ssa.UnOp:
+				if x.Op != token.MUL || !c20IsRef(x.Type()) {
+					return
+				}
+				if a.tainted[x.X] {
+					mark(x)
+				} else if al, ok := c17Cell(x.X).(*ssa.Alloc); ok && a.holds[al] {
+					mark(x)
+				}
+			case *ssa.Store:
+				if a.tainted[x.Val] {
+					if al, ok := c17Cell(x.Addr).(*ssa.Alloc); ok && !a.holds[al] {
+						a.holds[al] = true
+						changed = true
+					}
+				}
+			case *ssa.Call:
+				if base, _, _, ok := c21AppendCall(x); ok && a.tainted[base] {
+					mark(x)
+				}
+			}
+		})
+	}
+	return a
+}
+
+var c20LibMutators = map[string]bool{
+	"sort.Slice": true, "sort.SliceStable": true, "sort.Sort": true, "sort.Stable": true, "sort.Strings": true, "sort.Ints": true,
+	"slices.Sort": true, "slices.SortFunc": true, "slices.SortStableFunc": true, "slices.Reverse": true, "slices.Compact": true,
+	"slices.CompactFunc": true, "slices.Delete": true, "slices.DeleteFunc": true, "slices.Insert": true, "slices.Replace": true, "slices.Grow": true,
+}
+var c20LibReaders = map[string]bool{
+	"slices.Contains": true, "slices.ContainsFunc": true, "slices.Index": true, "slices.IndexFunc": true, "slices.Equal": true, "slices.EqualFunc": true,
+	"slices.BinarySearch": true, "slices.BinarySearchFunc": true, "slices.Max": true, "slices.Min": true, "slices.Clone": true, "slices.All": true, "slices.Values": true,
+	"sort.Search": true, "sort.SliceIsSorted": true,
+}
+
+// c20AliasWrites: does fn (transitively) write to storage aliasing its
+// parameter pi?  bad names the first write found, und a call that cannot be judged.
+func c20AliasWrites(p *Prog, fn *ssa.Function, pi, depth int, memo map[string][2]string) (bad, und string) {
+	mk := fmt.Sprintf("%p/%d", fn, pi)
+	if r, ok := memo[mk]; ok {
+		return r[0], r[1]
+	}
+	memo[mk] = [2]string{"", ""} // cycles: assume clean while in progress
+	a := c20AliasSet(fn, pi)
+	at := func(in ssa.Instruction) string { return fnName(in.Parent()) + " at " + p.Pos(in.Pos()) }
+	allInstrs(fn, true, func(_ *ssa.Function, in ssa.Instruction) {
+		if bad != "" {
+			return
+		}
+		switch x := in.(type) {
+		case *ssa.Store:
+			if a.tainted[x.Addr] {
+				bad = "stores into " + c20Short(x.Addr) + " in " + at(in)
+			}
+		case *ssa.MapUpdate:
+			if a.tainted[x.Map] {
+				bad = "updates the map " + c20Short(x.Map) + " in " + at(in)
+			}
+		case ssa.CallInstruction:
+			cc := x.Common()
+			if bi, ok := cc.Value.(*ssa.Builtin); ok {
+				switch bi.Name() {
+				case "append", "copy", "clear", "delete":
+					if len(cc.Args) > 0 && a.tainted[cc.Args[0]] {
+						what := map[string]string{"append": "appends to", "copy": "copies into", "clear": "clears", "delete": "deletes from"}[bi.Name()]
+						bad = what + " " + c20Short(cc.Args[0]) + " (which shares the receiver's storage) in " + at(in)
+					}
+				}
+				return
+			}
+			args := CallSite{Instr: x}.Args()
+			var hit []int
+			for i, arg := range args {
+				if a.tainted[arg] {
+					hit = append(hit, i)
+				}
+			}
+			if len(hit) == 0 {
+				return
+			}
+			callee := calleeOf(cc)
+			g := calleeFn(cc)
+			if g != nil && g.Blocks != nil && !cc.IsInvoke() {
+				if depth >= 5 {
+					und = "call chain deeper than 5 at " + at(in)
+					return
+				}
+				for _, i := range hit {
+					if i >= len(g.Params) {
+						continue
+					}
+					b, u := c20AliasWrites(p, g, i, depth+1, memo)
+					if b != "" {
+						bad = "passes " + c20Short(args[i]) + " to " + fnName(g) + ", which " + b
+						return
+					}
+					if u != "" && und == "" {
+						und = u
+					}
+				}
+				return
+			}
+			name := "<dynamic>"
+			if callee != nil && callee.Pkg() != nil {
+				name = callee.Pkg().Name() + "." + callee.Name()
+				if recvTypeName(callee) != "" {
+					name = callee.Pkg().Name() + "." + recvTypeName(callee) + "." + callee.Name()
+				}
+			}
+			switch {
+			case c20LibMutators[name]:
+				bad = "hands " + c20Short(args[hit[0]]) + " (the receiver's storage) to " + name + " in " + at(in)
+			case c20LibReaders[name]:
+			default:
+				if und == "" {
+					und = "hands " + c20Short(args[hit[0]]) + " to " + name + " (body not analysed) in " + at(in)
+				}
+			}
+		}
+	})
+	memo[mk] = [2]string{bad, und}
+	return
+}
+
+// c20Short renders a value for a message; long phi chains are summarised.
+func c20Short(v ssa.Value) string {
+	s := path(v)
+	if s == "" || len(s) > 48 {
+		return "a slice derived from the receiver"
+	}
+	return "`" + s + "`"
+}
+
+func c20FilterRO(m *c20Model) {
+	c, p := m.c, m.p
+	tn, _ := p.LookupObj(c21IpamPkg, "addrFilter").(*types.TypeName)
+	if tn == nil {
+		c.Lost("ipam.addrFilter")
+	}
+	iface, _ := tn.Type().Underlying().(*types.Interface)
+	if iface == nil || iface.NumMethods() == 0 {
+		c.Lost("ipam.addrFilter is not a (non-empty) interface")
+	}
+	pk := p.Pkg(c21IpamPkg)
+	if pk == nil {
+		c.Lost("package %s", c21IpamPkg)
+	}
+	nImpl := 0
+	scope := pk.Types.Scope()
+	for _, name := range scope.Names() {
+		t, _ := scope.Lookup(name).(*types.TypeName)
+		if t == nil || t == tn || t.IsAlias() {
+			continue
+		}
+		if _, isIface := t.Type().Underlying().(*types.Interface); isIface {
+			continue
+		}
+		if !types.Implements(t.Type(), iface) && !types.Implements(types.NewPointer(t.Type()), iface) {
+			continue
+		}
+		nImpl++
+		for i := 0; i < iface.NumMethods(); i++ {
+			im := iface.Method(i)
+			key := "C20.filterro/" + name + "." + im.Name()
+			obj, _, _ := types.LookupFieldOrMethod(types.NewPointer(t.Type()), true, pk.Types, im.Name())
+			mf, _ := obj.(*types.Func)
+			var fn *ssa.Function
+			if mf != nil {
+				fn = p.SSA.FuncValue(mf)
+			}
+			if fn == nil || fn.Blocks == nil || len(fn.Params) == 0 {
+				c.Undecided(key, p.Pos(t.Pos()), "cannot resolve the body of %s.%s", name, im.Name())
+				continue
+			}
+			bad, und := c20AliasWrites(p, fn, 0, 0, map[string][2]string{})
+			switch {
+			case bad != "":
+				c.Violate(key, p.Pos(fn.Pos()), "%s.%s (an addrFilter method, evaluated on the one reservation filter shared by all checks of a request) %s: evaluating the filter changes the reservation list, so later checks of the same request can miss reservations and hand out reserved addresses", name, im.Name(), bad)
+			case und != "":
+				c.Undecided(key, p.Pos(fn.Pos()), "%s.%s %s", name, im.Name(), und)
+			default:
+				c.Ok(key, p.Pos(fn.Pos()), "no write, append, copy or sort reaches storage aliasing the receiver")
+			}
+		}
+	}
+	if nImpl < 2 {
+		c.Lost("fewer than two addrFilter implementations in lib/ipam (%d)", nImpl)
+	}
+}
+
+// -------------------------------------------------------------------- capset --
+//
+// The per-host cap compares len(affine blocks of the host) with MaxBlocksPerHost
+// (C20.cap).  That only bounds the host's blocks if the list holds every block
+// affinity of the host.  An affinity in state pending / pendingDeletion still
+// stands for a block that is (or may be) affine to the host — releases mark the
+// affinity pendingDeletion before touching the block — so no listed affinity may
+// be dropped because of its value.
+
+// c20DependsOn: the value is computed from a value satisfying hit (operands,
+// through local variables).
+func c20DependsOn(v ssa.Value, hit func(ssa.Value) bool) bool {
+	seen := map[ssa.Value]bool{}
+	var walk func(v ssa.Value) bool
+	walk = func(v ssa.Value) bool {
+		if v == nil || seen[v] {
+			return false
+		}
+		seen[v] = true
+		if hit(v) {
+			return true
+		}
+		if al, ok := v.(*ssa.Alloc); ok {
+			for _, r := range *al.Referrers() {
+				if st, ok := r.(*ssa.Store); ok && st.Addr == ssa.Value(al) && walk(st.Val) {
+					return true
+				}
+			}
+			return false
+		}
+		in, ok := v.(ssa.Instruction)
+		if !ok {
+			return false
+		}
+		for _, op := range in.Operands(nil) {
+			if *op != nil && walk(*op) {
+				return true
+			}
+		}
+		return false
+	}
+	return walk(v)
+}
+
+func c20CapSet(m *c20Model) {
+	c, p := m.c, m.p
+	ga := m.fn(c21IpamPkg, "blockReaderWriter.getAffineBlocks")
+	fld := func(name string) *types.Var {
+		o := p.LookupObj(c21ModelPkg, name)
+		if o == nil {
+			o = p.LookupExt(c21ModelPkg, name)
+		}
+		v, _ := o.(*types.Var)
+		if v == nil {
+			c.Lost("field model.%s", name)
+		}
+		return v
+	}
+	fValue, fState := fld("KVPair.Value"), fld("BlockAffinity.State")
+
+	// (source) the list returned for assignment / counting is filterBlocksByPools(getAffineBlocks(..)#0, ..)#0
+	nOK := 0
+	for _, r := range returnsOf(m.prepare) {
+		if e := c21ErrOperand(r); e == nil || !isNilConst(e) {
+			continue
+		}
+		nOK++
+		ok := false
+		if bcall, isF := c20OnlyResult(r.Results[1], m.filterBlocks, 0); isF {
+			_, ok = c20OnlyResult(bcall.Common().Args[0], ga, 0)
+		}
+		c.Check(ok, "C20.capset/prepareAffinityBlocksForHost/source", p.Pos(r.Pos()),
+			"the affine blocks returned (and counted against the cap) are filterBlocksByPools(getAffineBlocks(...))",
+			"the affine-block list returned by prepareAffinityBlocksForHost (whose length is compared with MaxBlocksPerHost) is not filterBlocksByPools applied to the unmodified result of getAffineBlocks: blocks affine to the host can go uncounted, so the host can claim more blocks than the cap")
+	}
+	if nOK == 0 {
+		c.Lost("prepareAffinityBlocksForHost: no success return")
+	}
+
+	// (no-value-filter) getAffineBlocks lists BlockAffinityListOptions and no branch depends on an affinity's value
+	listed := false
+	for _, cs := range callsIn(ga, true, func(f *types.Func) bool { return f.Name() == "List" }) {
+		for _, arg := range cs.Args() {
+			if mi, ok := arg.(*ssa.MakeInterface); ok && namedTypeName(mi.X.Type()) == "BlockAffinityListOptions" {
+				listed = true
+			}
+		}
+	}
+	if !listed {
+		c.Lost("getAffineBlocks: no List(BlockAffinityListOptions) call")
+	}
+	readsValue := func(v ssa.Value) bool {
+		fv := fieldVar(v)
+		return fv != nil && (fv == fValue || fv == fState)
+	}
+	bad := ""
+	allInstrs(ga, true, func(_ *ssa.Function, in ssa.Instruction) {
+		if ifi, ok := in.(*ssa.If); ok && c20DependsOn(ifi.Cond, readsValue) {
+			bad = p.Pos(ifi.Cond.Pos())
+			if bad == "" || bad == "-" {
+				bad = p.Pos(in.Pos())
+			}
+		}
+	})
+	c.Check(bad == "", "C20.capset/getAffineBlocks/no-value-filter", p.Pos(ga.Pos()),
+		"no branch of getAffineBlocks depends on the value (state) of a listed block affinity: every affinity of the host is returned",
+		"getAffineBlocks branches on the value (state) of a listed block affinity (condition at "+bad+"): affinities in some state are left out of the host's affine-block list, so their blocks are not counted against MaxBlocksPerHost (nor cleaned up), although e.g. a pendingDeletion affinity still stands for a block affine to the host when the release was interrupted")
 }
